@@ -92,6 +92,7 @@ type Call struct {
 	doneCh   chan struct{} // closed when the call returned / completed
 	issued   chan struct{} // closed when the stub returned (async kinds: future available)
 
+	retAt time.Time
 	// results
 	mu       sync.Mutex
 	Outcome  string
@@ -439,6 +440,7 @@ func (call *Call) finish(outcome string, val proto.Message, err error) {
 	}
 	call.mu.Lock()
 	call.Outcome, call.Err, call.Value = outcome, err, val
+	call.retAt = time.Now()
 	call.mu.Unlock()
 	// the flag is raised before the event is logged: a quorum-function
 	// invocation that starts after this point is "after return".
@@ -591,4 +593,11 @@ func (call *Call) Typed() TypedGet {
 	call.mu.Lock()
 	defer call.mu.Unlock()
 	return call.typed
+}
+
+// ReturnedAt is the wall-clock time at which the call returned (zero if it has not).
+func (call *Call) ReturnedAt() time.Time {
+	call.mu.Lock()
+	defer call.mu.Unlock()
+	return call.retAt
 }
